@@ -905,11 +905,15 @@ class Interp:
                     continue
                 else:
                     parts.append(x)
-            # merge adjacent constants
+            # merge adjacent constants; adjacent byte strings of bit containers are the byte string of the joined container
             out = []
             for p in parts:
                 if out and isinstance(p, K) and isinstance(out[-1], K) and type(p.v) is type(out[-1].v):
                     out[-1] = K(out[-1].v + p.v)
+                elif out and isinstance(p, Term) and p.op == 'tobytes' and isinstance(out[-1], Term) and out[-1].op == 'tobytes' and getattr(out[-1], 'sliced', True):
+                    j = self.models.padded(out[-1].a[2].ba)
+                    j.extend(p.a[2].ba)
+                    out[-1] = self.models.tobytes_term(j)
                 else:
                     out.append(p)
             if len(out) == 1:
@@ -954,6 +958,12 @@ class Interp:
                 return ListV(v.items[lo.v:hi.v:st.v], v.tup)
             if isinstance(v, BA) and st.v is None:
                 return v.slice(lo.v, hi.v)
+        if isinstance(v, Term) and v.op == 'tobytes' and all(isinstance(x, K) for x in (lo, hi, st)) and st.v is None \
+                and all(x.v is None or isinstance(x.v, int) for x in (lo, hi)):
+            full = self.models.padded(v.a[2].ba)
+            nb = len(full) // 8
+            a_, b_, _ = slice(lo.v, hi.v).indices(nb)
+            return self.models.tobytes_term(full.slice(8 * a_, 8 * max(a_, b_))) if b_ > a_ else K(b'')
         if getattr(self, 'ROPES', False) and isinstance(v, (Sym, Term)) and all(isinstance(x, K) for x in (lo, hi, st)) \
                 and not (isinstance(v, Sym) and st.v is None):
             from .rope import Rope
@@ -1006,6 +1016,14 @@ class Interp:
                 raise RaiseEx(type(e).__name__, '')
             except TypeError:
                 raise RaiseEx('TypeError', 'not subscriptable')
+        if isinstance(v, Term) and v.op == 'tobytes' and isinstance(i, K) and isinstance(i.v, int):
+            full = self.models.padded(v.a[2].ba)
+            nb = len(full) // 8
+            k = i.v + nb if i.v < 0 else i.v
+            if not 0 <= k < nb:
+                raise RaiseEx('IndexError', 'index out of range')
+            b8 = full.slice(8 * k, 8 * k + 8)
+            return K(int(b8.pattern(), 2)) if b8.known() else self.models.ByteOf(b8)
         if isinstance(v, PBits) and isinstance(i, K) and v.view == 'str':
             try:
                 c = v.pat[i.v]
@@ -1165,7 +1183,35 @@ class Interp:
         self.comp(n.generators, 0, self.comp_frame(fr), lambda f2: out.append(self.ev(n.elt, f2)))
         return ListV(out)
 
-    ev_GeneratorExp = ev_ListComp
+    def ev_GeneratorExp(self, n, fr):
+        # lazy, as in python: the first iterable is evaluated now, everything else when the generator is advanced
+        f0 = self.comp_frame(fr)
+        first = self.ev(n.generators[0].iter, fr)
+
+        def rec(i, f2):
+            if i == len(n.generators):
+                yield self.ev(n.elt, f2)
+                return
+            g = n.generators[i]
+            src = first if i == 0 else self.ev(g.iter, f2)
+            for x in self.pull_iter(src, g.iter):
+                self.assign(g.target, x, f2)
+                if all(self.truth(self.ev(c, f2), c) for c in g.ifs):
+                    yield from rec(i + 1, f2)
+        return IterV(gen=rec(0, f0))
+
+    def pull_iter(self, v, node=None):
+        """python iterator over the abstract items of v; iterator objects are advanced one item at a time (not drained)"""
+        if isinstance(v, IterV):
+            while True:
+                try:
+                    yield v.pull()
+                except StopIter:
+                    return
+        items = self.iterate(v)
+        if items is None:
+            raise Fail(f'iteration over {v!r} line {getattr(node, "lineno", "?")}')
+        yield from items
 
     def ev_SetComp(self, n, fr):
         s = SetV()
@@ -1196,10 +1242,7 @@ class Interp:
             return
         g = gens[i]
         it = self.ev(g.iter, fr)
-        items = self.iterate(it)
-        if items is None:
-            raise Fail(f'comprehension over {it!r} line {g.iter.lineno}')
-        for x in items:
+        for x in self.pull_iter(it, g.iter):
             self.assign(g.target, x, fr)
             if all(self.truth(self.ev(c, fr), c) for c in g.ifs):
                 self.comp(gens, i + 1, fr, emit)
@@ -1208,6 +1251,8 @@ class Interp:
         hook = getattr(it, 'abs_iter', None)
         if hook is not None:
             return hook(self)
+        if isinstance(it, IterV):
+            return list(self.pull_iter(it))        # drains the iterator
         if isinstance(it, ListV):
             return list(it.items)
         if isinstance(it, K):
@@ -1504,9 +1549,7 @@ class Interp:
                     self.block(node.body, fr)
                 except ReturnEx:
                     pass
-                out = ListV(fr.gen)
-                out.is_iter = True
-                return out
+                return IterV(list(fr.gen))
             try:
                 self.block(node.body, fr)
             except ReturnEx as r:
@@ -1636,7 +1679,10 @@ class Interp:
 
     def st_For(self, st, fr):
         it = self.ev(st.iter, fr)
-        items = self.iterate(it)
+        if isinstance(it, IterV):
+            items = self.pull_iter(it, st.iter)
+        else:
+            items = self.iterate(it)
         if items is None:
             items = self.opaque_loop(st, it, fr)
             if items is None:
